@@ -1213,25 +1213,34 @@ def Sel.Cfg.typed (s : Schema) (dummyDoc : Bool) : Sel.Cfg Ann := ⟨dummyDoc, d
 /-! ## a predicate form that READS the typed value: `//*[. = 'lit']`
 
 Not part of the path language `E` (it does not erase): the general comparison atomizes the node.
-`cmpKey` is the string the comparison sees for a string-family typed value or an untyped node; for
-other typed values the comparison with a string literal raises XPTY0004 (`none`). -/
+`cmpKey` = the strings the comparison sees for a string-family typed value (every item of a list) or
+an untyped node; for other typed values the comparison with a string literal raises XPTY0004 (`none`). -/
 
 def cmpKey (valid : SType → String → Bool) (s : Schema) (a : Ann) (attrs : List (String × String))
-    (kids : Forest Ann) : Option String :=
+    (kids : Forest Ann) : Option (List String) :=
   match elemTypedValue valid s a attrs kids with
-  | .ok [v] =>
-    if v.cls == .untypedAtomic || v.cls == .string || v.cls == .normalizedString || v.cls == .token
-    then some v.val else none
+  | .ok [] => none                    -- atomization of an empty typed value raises FOTY0012
+  | .ok vs =>
+    if vs.all fun v => v.cls == .untypedAtomic || v.cls == .string || v.cls == .normalizedString ||
+        v.cls == .token || v.cls == .anyURI          -- xs:anyURI is promoted to xs:string in comparisons
+    then some (vs.map (·.val)) else none
   | _ => none
 
-/-- the elements selected by `//*[. = 'lit']` (indices), `none` = the comparison raises on some element -/
+def hasElemChild {α : Type} : Forest α → Bool
+  | .nil => false
+  | .leaf _ _ r => hasElemChild r
+  | .elem _ _ _ _ _ _ => true
+
+/-- the elements selected by `//*[not(*)][. = 'lit']` (indices of the LEAF elements whose value equals
+the literal), `none` = the comparison raises on some leaf element -/
 def selectValEq (valid : SType → String → Bool) (s : Schema) (lit : String) : Nat → Forest Ann → Option (List Nat)
   | _, .nil => some []
   | start, .leaf _ _ r => selectValEq valid s lit (start + 1) r
   | start, .elem a _ ats _ kids rest =>
-    match cmpKey valid s a ats kids, selectValEq valid s lit (start + 1 + ats.length) kids,
+    match (if hasElemChild kids then some [] else (cmpKey valid s a ats kids).map fun ks => if ks.contains lit then [start] else []),
+          selectValEq valid s lit (start + 1 + ats.length) kids,
           selectValEq valid s lit (start + 1 + ats.length + Sel.fsize kids) rest with
-    | some k, some l1, some l2 => some ((if k == lit then [start] else []) ++ l1 ++ l2)
+    | some l0, some l1, some l2 => some (l0 ++ l1 ++ l2)
     | _, _, _ => none
 
 end EPV.Xsd
